@@ -6,12 +6,12 @@
 (***************************************************************************)
 EXTENDS Integers, Sequences, FiniteSets, TLC
 
-Right(r) == r[1] + r[3]
-Bottom(r) == r[2] + r[4]
-Inside(r, R) == r[1] >= R[1] /\ r[2] >= R[2] /\ Right(r) <= Right(R) /\ Bottom(r) <= Bottom(R)
+RightEdge(r) == r[1] + r[3]
+BottomEdge(r) == r[2] + r[4]
+Inside(r, R) == r[1] >= R[1] /\ r[2] >= R[2] /\ RightEdge(r) <= RightEdge(R) /\ BottomEdge(r) <= BottomEdge(R)
 \* interiors do not meet (touching edges allowed; empty boxes meet nothing)
 Disjoint(a, b) == \/ a[3] = 0 \/ a[4] = 0 \/ b[3] = 0 \/ b[4] = 0
-                  \/ Right(a) <= b[1] \/ Right(b) <= a[1] \/ Bottom(a) <= b[2] \/ Bottom(b) <= a[2]
+                  \/ RightEdge(a) <= b[1] \/ RightEdge(b) <= a[1] \/ BottomEdge(a) <= b[2] \/ BottomEdge(b) <= a[2]
 TransposeRect(r) == <<r[2], r[1], r[4], r[3]>>
 TransposePoint(p) == <<p[2], p[1]>>
 =============================================================================
